@@ -147,6 +147,7 @@ Bytes gen_packet(hz::Tape &t, const Bytes &dst, const Bytes &src, uint16_t ident
 	case 2: n = t.below((uint32_t)maxbody + 1); break;
 	default: n = maxbody > 32 ? maxbody - t.below(32) : maxbody; break;
 	}
+	if (n > maxbody) n = maxbody;
 	return tun_packet(dst, src, t.bytes_of(n), ident);
 }
 
